@@ -106,3 +106,9 @@ var _ = pr.AutoF
 //@   props C14
 //@   modifies nothing
 //@   trusted "frame only: reads the element's rel attribute"
+
+// the page names a box starts and ends on are functions of the (laid-out, read-only) box
+//@ func iface (boxes.Box).PageValues
+//@   pure
+//@ func iface (boxes.*).PageValues
+//@   pure
